@@ -27,10 +27,9 @@ RULE = ("graph or dataset (0-4 graphs incl. blank-node-named and empty ones, def
         "paths, OPTIONAL, aggregates), 8 query objects prepared once per case and evaluated repeatedly (multi-key ORDER BY, compared as "
         "sequences), path evaluation, isomorphic/to_isomorphic/to_canonical_graph/graph_diff, len/iter/in/slicing, subjects("
         "unique), value, items, transitive_objects, cbd, connected, all_nodes, skolemize, namespaces, graphs(), quads(), membership with a Graph "
-        "of the same store as context. Non-trivial = >=2 graphs incl. a blank-node-named or empty one and the sequence has a serialise and a "
+        "of the same store or of another store as context. Non-trivial = >=2 graphs incl. a blank-node-named or empty one and the sequence has a serialise and a "
         "query; distinct by SHA-1 of the case JSON.")
 ASSUMPTIONS = ["prefix bindings are not part of the snapshot (serialisers and qname legitimately generate prefixes)",
-               "graphs of a different store passed as read context are not generated (caller error)",
                "two serialisations are 'the same answer' if byte-equal or if they parse to isomorphic graphs"]
 
 DEF = ("d",)
@@ -152,6 +151,12 @@ class make_prepared(dict):
         return self[i]
 
 
+def _foreign(name):
+    g = Graph(identifier=URIRef(name))
+    g.add((S1, P1, Literal("foreign")))
+    return g
+
+
 def make_read(op, target, is_ds, paths=None, prepared=None):
     """returns (label, callable) for a read-only call"""
     name = op[0]
@@ -210,6 +215,10 @@ def make_read(op, target, is_ds, paths=None, prepared=None):
                                   (S1, P1, None, BNode("gb")) in target),
             "triples-ctx": lambda: list(target.triples((None, None, None), context=Graph(store=target.store, identifier=URIRef("urn:never2")))),
             "get_context": lambda: len(target.get_context(URIRef("urn:never3"))),
+            # a Graph of ANOTHER store given as the context to look in (it names the graph; nothing of it belongs to the dataset)
+            "contains4-foreign": lambda: ((S1, P1, None, _foreign("http://ex.org/g1")) in target, (S1, P1, None, _foreign("urn:never4")) in target),
+            "triples-ctx-foreign": lambda: sorted(map(repr, target.triples((None, None, None), context=_foreign("urn:never5")))),
+            "quads-foreign": lambda: sorted(map(repr, target.quads((None, None, None, _foreign("http://ex.org/g1"))))),
         })
     names = sorted(reads)
     nm = names[op[1] % len(names)] if name == "api" else name
@@ -270,7 +279,7 @@ def run(case):
 def cases(draw, tier):
     kind = draw(st.sampled_from(["graph", "dataset", "dataset", "dataset-union"]))
     op = st.one_of(st.tuples(st.just("serialize"), st.integers(0, 7)), st.tuples(st.just("query"), st.integers(0, len(QUERIES) - 1)),
-                   st.tuples(st.just("api"), st.integers(0, 30)), st.tuples(st.just("api"), st.integers(0, 30)),
+                   st.tuples(st.just("api"), st.integers(0, 33)), st.tuples(st.just("api"), st.integers(0, 33)),
                    st.tuples(st.just("prepared"), st.integers(0, len(PREPARED) - 1))).map(list)
     return {"kind": kind, "store": draw(st.sampled_from(["memory", "simple"])), "graphs": dataset_graphs(draw),
             "ops": draw(sized_lists(op, 3, 10))}
